@@ -241,10 +241,9 @@ def handle (req impl : String) : String × String :=
           | none => implOps
         let model := hexField bytes ++ "|" ++ mOps
         let expected := showOps (canonAll fmtReal ops)
-        let classes :=
-          (if ops.any badSize then ["font-size-beyond-i32"] else []) ++
-          (if ops.any badClip then ["clip-rect-non-finite"] else []) ++
-          (if hasInf expected then ["f32-overflow"] else [])
+        -- font sizes beyond i32 (C21-F1) and non-finite clip_rect arguments (C21-F2) are repaired:
+        -- they are no longer excused
+        let classes := (if hasInf expected then ["f32-overflow"] else [])
         let oracle :=
           if crashed impl then "fail:crash:" ++ (impl.splitOn ":").head!
           else if implOps == "?" then "fail:no-parse-result:" ++ impl.take 40
